@@ -10,17 +10,25 @@ LX = "a816.parse.scanner_states."
 FUNCTIONS = [SC + "scan", SC + "next", SC + "backup", SC + "peek", SC + "accept", SC + "accept_prefix", SC + "accept_run", SC + "ignore", SC + "ignore_run", SC + "emit",
              SC + "_handle_line", LX + "lex_initial", LX + "lex_identifier", LX + "lex_quoted_string", LX + "accept_opcode", LX + "lex_expression", LX + "lex_operand",
              LX + "lex_opcode_index", LX + "lex_opcode_size", LX + "lex_opcode", LX + "lex_keyword", LX + "lex_number"]
-MIN_OBLIGATIONS = 30
+MIN_OBLIGATIONS = 300
 EXPLANATION = ("Scanner termination is proved on the real code over a SYMBOLIC input (symbolic length and characters): every scanner loop "
                "(accept_run, the ';' and '/* */' comment loops, the quoted-string loop, lex_expression's loop) is cut at an invariant with the "
                "variant 'characters left' checked at every call site reached from lex_initial (so each candidates/negate combination is covered, "
                "including end of input where next() returns None without advancing); lex_initial is proved to consume at least one character or "
-               "raise; Scanner.scan's driver loop is proved with that contract.  Parser and expansion termination, and the token-level sweep, are the bounded part.")
+               "raise; Scanner.scan's driver loop is proved with that contract.  PARSER termination is proved on the real parser_states.py over a SYMBOLIC TOKEN LIST "
+               "(arbitrary length, token types and texts): each of the 18 mutually recursive parse functions is verified against 'returns having consumed at least "
+               "delta tokens or raises'; every call it makes is checked to decrease the well-founded measure (tokens left, rank) lexicographically "
+               "(callsite_pre:termination_measure_decreases, the callee being replaced by its contract, recursion included) and every parser loop "
+               "(parse_block, parse_initial, parse_map, parse_struct, parse_macro_definition_args, parse_expression_list_inner, DataNode's copy loop) has a decreasing variant.  "
+               "Expansion termination and the token-level sweep are the bounded part.")
 TRUSTED = ["vf/specs/lexmodel.py (state-function contract used for the driver loop; established by lex_initial_progress_contract)"]
 ASSUMPTIONS = ["membership of a symbolic 3-character candidate in the opcode table is encoded exactly (one disjunct per mnemonic)",
                "File.append only records the line text (ghost for error messages); it is not tracked in these obligations",
-               "parser loops (bounded by the EOF token) and expansion recursion (strict sub-ASTs, .for counts, CPython's recursion limit for macro recursion) are "
-               "covered by the bounded sweep only", "lex_macro_args_def / lex_macro_arg are unreachable from the assembler's entry points (dead code) and not claimed"]
+               "expansion recursion (strict sub-ASTs, .for counts, CPython's recursion limit for macro recursion) is covered by the bounded sweep only",
+               "parser: the `.include` branch of parse_keyword (open + nested scan + nested parse of another file) is excluded from parse_keyword's contract: its "
+               "termination is by the nesting depth of the included files (a self-including file ends in CPython's RecursionError), not by the token measure",
+               "parser: ast.literal_eval on a token text is modelled as 'any value or ValueError/SyntaxError'; token texts are strings shorter than 65536 characters",
+               "parser: lists built by loops are abstracted to lists of arbitrary length with opaque elements (only lengths / emptiness are ever read back)", "lex_macro_args_def / lex_macro_arg are unreachable from the assembler's entry points (dead code) and not claimed"]
 
 
 def scanner(B, with_lines=False):
@@ -87,6 +95,8 @@ def setup_engine(E):
     L[(LX + "lex_initial", 1)] = LoopSpec("lex_initial#block-comment", H + "inv_s", variant=H + "var_s", havoc=_havoc_scanner("s"), modifies=_modifies("s"), ghost=_ghost("s"))
     L[(LX + "lex_quoted_string", 0)] = LoopSpec("lex_quoted_string", H + "inv_s", variant=H + "var_quoted", havoc=_havoc_scanner("s", _havoc_quoted_c), modifies=_modifies("s"), ghost=_ghost("s"))
     L[(LX + "lex_expression", 0)] = LoopSpec("lex_expression", H + "inv_s", variant=H + "var_s", havoc=_havoc_scanner("s"), modifies=_modifies("s"), ghost=_ghost("s"))
+    setup_parser(E)
+    setup_parser_nodes(E)
     L[(SC + "scan", 0)] = LoopSpec("Scanner.scan#driver", H + "inv_self", variant=H + "var_self", havoc=_havoc_scanner("self"), modifies=_modifies("self"), ghost=_ghost("self"))
 
 
@@ -118,8 +128,109 @@ def shape_sub(name):
     return sh
 
 
+# ------------------------------------------------------------------------------------------------- parser termination
+PH = "vf.contracts.c_parser."
+PSQ = "a816.parse.parser_states."
+PM = "vf.specs.parsemodel."
+# function -> (rank, delta, rejects end of input, lenient about the exception class)
+PARSER_TABLE = {
+    "_parse_expression": (0, 1, True, False), "parse_expression": (1, 1, True, False), "parse_expression_list_inner": (2, 0, False, False),
+    "parse_expression_list": (3, 2, True, False), "parse_opcode": (3, 1, False, True), "parse_macro_application": (4, 3, True, False),
+    "parse_symbol_affectation": (2, 3, True, False), "parse_code_position_keyword": (2, 1, True, False), "parse_code_relocation_keyword": (2, 1, True, False),
+    "parse_include_ips": (2, 3, True, False), "parse_if": (2, 3, True, False), "parse_for": (2, 7, True, False), "parse_scope": (2, 3, True, False),
+    "parse_macro": (2, 5, True, False), "parse_keyword": (5, 1, True, True), "parse_decl": (6, 1, True, True), "parse_block": (7, 1, True, True),
+    "parse_initial": (8, 0, False, True),
+}
+PARSER_FUNCTIONS = [PSQ + n for n in PARSER_TABLE] + [PSQ + n for n in ("parse_operand_and_addressing", "parse_macro_definition_args", "parse_map", "parse_struct",
+                    "parse_directive_with_quoted_string", "parse_label", "parse_code_lookup", "is_value_size")] + \
+                   ["a816.parse.parser.Parser." + n for n in ("current", "peek", "next", "backup")] + ["a816.parse.parser." + n for n in ("expect_token", "expect_tokens", "accept_token", "accept_tokens")]
+
+
+def _check_model_table(E):
+    """the spec functions and the table the harness cases use must state the same clauses"""
+    import ast as _ast
+    for name, (rank, delta, eof, _len) in PARSER_TABLE.items():
+        fn, _m, _c = E.index.functions[PM + name + "_model"]
+        call = fn.body[0].value
+        got = tuple(_ast.literal_eval(a) for a in call.args[1:])
+        if got != (rank, delta, eof):
+            raise RuntimeError(f"parsemodel.{name}_model states {got}, the case table {(rank, delta, eof)}")
+
+
+def _havoc_parser(lists=(), dicts=()):
+    def havoc(I, st):
+        from vf.pyvc.values import HAbstract, HSymList, Opaque
+        p = st.env["p"]
+        I.hmut(st, p).fields["pos"] = I.fresh_int("pos")
+        for name in lists:
+            n = I.fresh_int(name + "_len")
+            st.pc.append(n >= 0)
+            st.heap[st.env[name].oid] = HSymList(n, lambda I2, s2, idx: Opaque("element"), what=name)
+        for name in dicts:
+            st.heap[st.env[name].oid] = HAbstract("dict")
+    return havoc
+
+
+def _modifies_parser(names=()):
+    def m(I, st):
+        return {st.env["p"].oid} | {st.env[n].oid for n in names}
+    return m
+
+
+def _ghost_parser(I, st):
+    return {"pos0": I.hget(st, st.env["p"]).fields["pos"]}
+
+
+def setup_parser(E):
+    from vf.pyvc.loops import LoopSpec
+    _check_model_table(E)
+    for name in PARSER_TABLE:
+        E.I.contracts[PSQ + name] = PM + name + "_model"
+    L = E.I.loop_specs
+    for fn, lists, dicts in (("parse_macro_definition_args", ("args",), ()), ("parse_expression_list_inner", ("expressions",), ()), ("parse_map", (), ("args",)),
+                             ("parse_struct", (), ("fields",)), ("parse_block", ("decl",), ()), ("parse_initial", ("statements",), ())):
+        L[(PSQ + fn, 0)] = LoopSpec(fn, PH + "inv_parser", variant=PH + "var_parser", havoc=_havoc_parser(lists, dicts), modifies=_modifies_parser(lists + dicts), ghost=_ghost_parser)
+
+
+def _datanode_items(I, st):
+    """an element of the list handed to DataNode: an expression or (for `.db {...}`) a block, which its assert rejects"""
+    from vf.pyvc.values import HInst, Opaque
+    mk = lambda cls: I.alloc(st, HInst("a816.parse.ast.nodes." + cls, {"kind": Opaque("kind"), "file_info": Opaque("token")}))
+    return [mk("ExpressionAstNode"), mk("BlockAstNode")]
+
+
+def _havoc_datanode(I, st):
+    from vf.pyvc.values import HSymList, Opaque
+    lst = I.hget(st, st.env["self"]).fields["data"]
+    n = I.fresh_int("data_len")
+    st.pc.append(n >= 0)
+    st.heap[lst.oid] = HSymList(n, lambda I2, s2, idx: Opaque("element"), what="data")
+
+
+def shape_parser(name):
+    rank, delta, eof, lenient = PARSER_TABLE[name]
+
+    def sh(B):
+        p = B.inst("a816.parse.parser.Parser", tokens=B.symtokens("tokens"), pos=B.int("pos"), initial_state=None)
+        return {"p": p, "fn": B.func(PSQ + name), "rank": rank, "delta": delta, "eof_raises": eof, "no_include": name in ("parse_keyword",), "lenient": lenient}
+    return sh
+
+
+def setup_parser_nodes(E):
+    from vf.pyvc.loops import LoopSpec
+    E.I.loop_specs[("a816.parse.ast.nodes.DataNode.__init__", 0)] = LoopSpec("DataNode.__init__", PH + "inv_true", havoc=_havoc_datanode, item=_datanode_items,
+                                                                              modifies=lambda I, st: {I.hget(st, st.env["self"]).fields["data"].oid})
+
+
+def parser_cases(E):
+    return [Case(PH + "parser_function_contract", name, shape_parser(name), target=[PSQ + name], timeout_ms=30000, group="parser") for name in PARSER_TABLE]
+
+
+FUNCTIONS = FUNCTIONS + PARSER_FUNCTIONS + ["a816.parse.ast.nodes.DataNode.__init__"]
+
+
 def cases(E):
-    return [Case(H + "sublexer_contract", n, shape_sub(n), target=[LX + n], timeout_ms=30000) for n in SUBLEXERS] + [Case(H + "lex_initial_progress_contract", "any input, any position with a character left", shape_scanner, target=[LX + "lex_initial"], timeout_ms=30000),
+    return parser_cases(E) + [Case(H + "sublexer_contract", n, shape_sub(n), target=[LX + n], timeout_ms=30000) for n in SUBLEXERS] + [Case(H + "lex_initial_progress_contract", "any input, any position with a character left", shape_scanner, target=[LX + "lex_initial"], timeout_ms=30000),
             Case(H + "scan_loop_contract", "any input", shape_scan, target=[SC + "scan"], overrides={LX + "lex_initial": "vf.specs.lexmodel.state_function_model"})]
 
 
@@ -131,7 +242,12 @@ def bounded(tier, seed):
 def mutants():
     from vf.pyvc.mutate import textual
     return [
-        Mutant("lex_initial:unterminated-comment-spins", LX + "lex_initial", textual("            if s.next() is None:\n                raise ScannerException('Unterminated comment', s.get_position())", "            s.next()"), only_harness="lex_initial"),
+        Mutant("parse_decl:comment-not-consumed", PSQ + "parse_decl", textual("    if accept_token(current_token, TokenType.COMMENT):\n        return None", "    if accept_token(current_token, TokenType.COMMENT):\n        p.backup()\n        return None"), only_harness="parser_function"),
+        Mutant("parse_struct:comment-not-consumed", PSQ + "parse_struct", textual("            p.next()\n            continue", "            continue"), only_harness="parser_function"),
+        Mutant("_parse_expression:token-not-consumed", PSQ + "_parse_expression", textual("current_token = p.next()", "current_token = p.current()"), only_harness="parser_function"),
+        Mutant("parse_macro_definition_args:loop-does-not-advance", PSQ + "parse_macro_definition_args", textual("            token = p.next()", "            token = p.current()"), only_harness="parser_function"),
+        Mutant("Parser.next:does-not-advance-at-end", "a816.parse.parser.Parser.next", textual("self.pos += 1", "self.pos += 1 if self.pos < len(self.tokens) - 1 else 0"), only_harness="parser_function"),
+        Mutant("lex_initial:unterminated-comment-spins", LX + "lex_initial", textual("            if s.next() is None:\n                raise ScannerException('Unterminated comment', comment_position)", "            s.next()"), only_harness="lex_initial"),
         Mutant("lex_opcode:negated-run-without-EOF-sentinel", LX + "lex_opcode", textual("s.accept_run('\\n\\x00', negate=True)", "s.accept_run('\\n', negate=True)"), only_harness="sublexer"),
         Mutant("lex_initial:unknown-character-not-consumed", LX + "lex_initial", textual("        if s.next() is not None:\n            raise", "        if s.peek() == 'never':\n            raise"), only_harness="lex_initial"),
         Mutant("lex_quoted_string:newline-not-an-error", LX + "lex_quoted_string", textual("if c == '\\n' or c is None:", "if c == '\\n':"), only_harness="sublexer"),
